@@ -5,7 +5,7 @@ from lib import *
 import cli
 
 PROP = "C20"
-PAR_OK = True
+PAR_OK = lambda c: '(op enum-' in c['sx']   # every other op uses the process-wide math/rand source
 LEVEL = "proof"
 RULE = ("(1) per-seed prediction: `gotree sample -n k [--replace] --seed s` on files of n = 1..9 distinct trees (k<n, k=n, k>n) and "
         "`gotree prune --random k [-r] --seed s` on random trees of 5..12 tips are run by the driver; the worker records the raw "
@@ -81,6 +81,33 @@ def gen(rng, tier):
         nt = len(leaves(t))
         out.append({"sx": sx({"op": Sym("shuffle"), "tree": T(t), "seed": rng.randrange(1, 2**31), "nraw": 2 * nt + 32}),
                     "meta": {"op": "shuffle", "ntips": nt}})
+    # ---- ShuffleTips on trees whose node names collide: named inner nodes (duplicated, equal to a tip name,
+    #      numeric-looking), duplicated tip names; one case = the same tree under 16 seeds
+    def _collide(t):
+        inner = [x for x in preorder(t) if kids(x)]
+        tipsn = [x for x in preorder(t) if not kids(x)]
+        style = rng.choice(["dup-inner", "inner-is-tip", "numeric", "dup-tip", "mixed", "plain-named"])
+        for x in inner:
+            r = rng.random()
+            if style in ("dup-inner", "mixed") and r < 0.6:
+                x["name"] = rng.choice(["S", "D", "S"])
+            elif style in ("inner-is-tip", "mixed") and r < 0.8:
+                x["name"] = rng.choice(tipsn)["name"]
+            elif style == "numeric" and r < 0.7:
+                x["name"] = rng.choice(["1", "0.5", "100", "1e3", "007"])
+            elif style == "plain-named" and r < 0.7:
+                x["name"] = "I%d" % rng.randrange(1000)
+        if style in ("dup-tip", "mixed") and len(tipsn) >= 4:
+            a, b = rng.sample(tipsn, 2)
+            b["name"] = a["name"]
+        return style
+    for _ in range({"quick": 40, "thorough": 600, "search": 40}[tier]):
+        t = g.tree(lo=3, hi=10, maxdeg=4, lenmode="all", supmode="none", up_random=rng.random() < 0.3)
+        style = _collide(t)
+        nt = len(leaves(t))
+        out.append({"sx": sx({"op": Sym("shufflemulti"), "tree": T(t), "seeds": [rng.randrange(1, 2**31) for _ in range(16)],
+                              "nraw": 2 * nt + 32}),
+                    "meta": {"op": "shufflemulti", "style": style, "ntips": nt}})
     # ---- the uniform generator in the worker, per seed (structure; a changed index expression is a CORR here too)
     for n in list(range(2, 12)) + [rng.randint(12, 40) for _ in range({"quick": 6, "thorough": 60, "search": 4}[tier])]:
         for rooted in (False, True):
@@ -350,6 +377,11 @@ def extra(tier, seed, st):
         f = os.path.join(d, "sh.nw")
         open(f, "w").write("((a,b),c,d);\n")
         configs.append(("shuffletips n=4", ["shuffletips", "-i", f], set(permutations(["a", "b", "c", "d"])),
+                        lambda so: tuple(_names(so))))
+        # node names that collide: two inner nodes with the same name, the root named like a tip
+        f = os.path.join(d, "sh2.nw")
+        open(f, "w").write("((a,b)x,(c,d)x)a;\n")
+        configs.append(("shuffletips n=4 colliding node names", ["shuffletips", "-i", f], set(permutations(["a", "b", "c", "d"])),
                         lambda so: tuple(_names(so))))
         rng = random.Random(seed + 20)
         for name, argv, outs, key in configs:
